@@ -27,7 +27,7 @@ VARIABLES
   known,      \* [P -> BOOLEAN]  participant currently present
   lastSign,   \* [P -> Int]
   lease,      \* [P -> Int]      ms
-  ann,        \* [E -> BOOLEAN]  endpoint currently announced (and its participant present)
+  ann,        \* [E -> BOOLEAN]  endpoint currently announced (its participant is present, or was never heard of yet)
   attic,      \* [E -> BOOLEAN]  endpoint was announced when its participant timed out
   fuzzy,      \* [E -> BOOLEAN]  in the attic, and its participant was disposed while lost: the statement leaves open
               \*                  whether such an endpoint is known again when the participant reappears
